@@ -771,17 +771,36 @@ theorem rulesLoop_site {sf : Nat} {env : Env} {f : Flag} :
       obtain ⟨st2, h1, h2, h3⟩ := ih h
       exact ⟨st2, h1.trans hc.1, h2.trans hc.2.1, h3⟩
 
+/-- The line names (by its OWN key) a flag that the store `s` returned for one of the lookup keys
+`ks`.  For a store that files every flag under its own key this is just `key ∈ ks`
+(`NamesLookedUp.of_consistent`). -/
+def NamesLookedUp (s : Store) (key : String) (ks : List String) : Prop :=
+  ∃ k ∈ ks, ∃ pf, s.findFlag k = some pf ∧ key = pf.key
+
+theorem NamesLookedUp.mono {s : Store} {key : String} {ks ks' : List String}
+    (h : ∀ k ∈ ks, k ∈ ks') (hn : NamesLookedUp s key ks) : NamesLookedUp s key ks' := by
+  obtain ⟨k, hk, pf, hf, he⟩ := hn
+  exact ⟨k, h k hk, pf, hf, he⟩
+
+theorem NamesLookedUp.of_consistent {s : Store} (hs : StoreConsistent s) {key : String}
+    {ks : List String} (hn : NamesLookedUp s key ks) : key ∈ ks := by
+  obtain ⟨k, hk, pf, hf, he⟩ := hn
+  have : k = pf.key := hs.1 _ (Store.mem_of_findFlag hf)
+  rw [he, ← this]; exact hk
+
 /-- The call wrote a diagnosing line: the last log line is new, its error is of the
 MALFORMED_FLAG class, and it names `key` — or, when the evaluation was aborted (`ok = false`),
-possibly one of the (prerequisite) flags looked up during the call. -/
-def Diag (key : String) (ok : Bool) (st st' : St) : Prop :=
+possibly one of the (prerequisite) flags the store returned for a lookup made during the call
+(named by that flag's own key, which need not be the lookup key). -/
+def Diag (s : Store) (key : String) (ok : Bool) (st st' : St) : Prop :=
   ∃ l, st'.logs.getLast? = some l ∧ st.logs.length < st'.logs.length ∧
     l.err.kind = .malformedFlag ∧
-    (l.flagKey = key ∨ (ok = false ∧ l.flagKey ∈ st'.flagLookups.drop st.flagLookups.length))
+    (l.flagKey = key ∨
+      (ok = false ∧ NamesLookedUp s l.flagKey (st'.flagLookups.drop st.flagLookups.length)))
 
 theorem diag_logErr {env : Env} (hl : env.opts.logger = true) {key : String} {e : EvalErr}
     {a b : St} {ok : Bool} (he : e.kind = .malformedFlag) (hlen : a.logs.length ≤ b.logs.length) :
-    Diag key ok a (logErr env key e b) := by
+    Diag env.store key ok a (logErr env key e b) := by
   refine ⟨⟨key, e⟩, ?_, ?_, he, .inl rfl⟩
   · rw [logErr_logs hl]; exact List.getLast?_concat
   · rw [logErr_logs hl, List.length_append]
@@ -795,30 +814,31 @@ theorem mem_drop_of_le {α : Type} {x : α} {l : List α} {n m : Nat} (h : n ≤
   rw [this] at hx
   exact List.mem_of_mem_drop hx
 
-theorem Diag.weaken {key : String} {ok : Bool} {a b c : St}
+theorem Diag.weaken {s : Store} {key : String} {ok : Bool} {a b c : St}
     (h1 : a.logs.length ≤ b.logs.length) (h2 : a.flagLookups.length ≤ b.flagLookups.length)
-    (h : Diag key ok b c) : Diag key ok a c := by
+    (h : Diag s key ok b c) : Diag s key ok a c := by
   obtain ⟨l, hl1, hl2, hl3, hl4⟩ := h
   refine ⟨l, hl1, by omega, hl3, ?_⟩
   rcases hl4 with hl4 | ⟨hok, hl4⟩
   · exact .inl hl4
-  · exact .inr ⟨hok, mem_drop_of_le h2 hl4⟩
+  · exact .inr ⟨hok, hl4.mono fun k hk => mem_drop_of_le h2 hk⟩
 
 /-- What the parametric lemmas assume about the open prerequisite recursion. -/
-abbrev FlagRecDiag (rec : FlagRec) : Prop :=
+abbrev FlagRecDiag (s : Store) (rec : FlagRec) : Prop :=
   ∀ pf chain st d ok st', rec pf chain st = (.done d ok, st') →
-    (d.reason.kind = .error ∨ ok = false) → Diag pf.key ok st st'
+    (d.reason.kind = .error ∨ ok = false) → Diag s pf.key ok st st'
 
+/-- The returned flag sits in the store under the lookup key (its own key may differ). -/
 theorem findFlag_key_sl {s : Store} {k : String} {pf : Flag} (h : s.findFlag k = some pf) :
-    pf.key = k := by
-  have := List.find?_some h
-  simpa using this
+    (k, pf) ∈ s.flags :=
+  Store.mem_of_findFlag h
 
 
 theorem prereqLoop_diag {rec : FlagRec} {env : Env} (hl : env.opts.logger = true)
-    (hrec : FlagRecDiag rec) (hreach : FlagRecF env rec) (f : Flag) (chain : List String) :
+    (hrec : FlagRecDiag env.store rec) (hreach : FlagRecF env rec) (f : Flag)
+    (chain : List String) :
     ∀ ps st st', prereqLoop rec env f chain ps st = (.malformed, st') →
-      Diag f.key false st st' := by
+      Diag env.store f.key false st st' := by
   intro ps
   induction ps with
   | nil => intro st st' h; simp [prereqLoop] at h
@@ -850,12 +870,13 @@ theorem prereqLoop_diag {rec : FlagRec} {env : Env} (hl : env.opts.logger = true
             subst h
             obtain ⟨l, hl1, hl2, hl3, hl4⟩ := hrec pf chain _ d false st2 heq (.inr rfl)
             refine ⟨l, hl1, hl2, hl3, .inr ⟨rfl, ?_⟩⟩
-            show l.flagKey ∈ st2.flagLookups.drop st.flagLookups.length
+            show NamesLookedUp env.store l.flagKey (st2.flagLookups.drop st.flagLookups.length)
             rcases hl4 with hl4 | ⟨_, hl4⟩
             · obtain ⟨t, ht⟩ := hfl
-              rw [← ht, List.append_assoc, List.drop_left, hl4, findFlag_key_sl hfind]
+              refine ⟨p.key, ?_, pf, hfind, hl4⟩
+              rw [← ht, List.append_assoc, List.drop_left]
               exact List.mem_cons_self
-            · refine mem_drop_of_le ?_ hl4
+            · refine hl4.mono fun k hk => mem_drop_of_le ?_ hk
               show st.flagLookups.length ≤ (st.flagLookups ++ [p.key]).length
               rw [List.length_append]; omega
           | true =>
@@ -872,19 +893,21 @@ theorem prereqLoop_diag {rec : FlagRec} {env : Env} (hl : env.opts.logger = true
                 split <;> exact this
 
 theorem checkPrereqs_diag {rec : FlagRec} {env : Env} (hl : env.opts.logger = true)
-    (hrec : FlagRecDiag rec) (hreach : FlagRecF env rec) {f : Flag} {chain : List String}
+    (hrec : FlagRecDiag env.store rec) (hreach : FlagRecF env rec) {f : Flag}
+    {chain : List String}
     {st st' : St} (h : checkPrereqs rec env f chain st = (.malformed, st')) :
-    Diag f.key false st st' := by
+    Diag env.store f.key false st st' := by
   unfold checkPrereqs at h
   split at h
   · simp at h
   · exact prereqLoop_diag hl hrec hreach f _ _ _ _ h
 
 theorem evalBody_diag {rec : FlagRec} {sf : Nat} {env : Env} (hl : env.opts.logger = true)
-    (hrec : FlagRecDiag rec) (hreach : FlagRecF env rec) {f : Flag} {chain : List String}
+    (hrec : FlagRecDiag env.store rec) (hreach : FlagRecF env rec) {f : Flag}
+    {chain : List String}
     {st : St} {d : Detail} {ok : Bool} {st' : St}
     (h : evalBody rec (segContains sf env) env f chain st = (.done d ok, st'))
-    (herr : d.reason.kind = .error ∨ ok = false) : Diag f.key ok st st' := by
+    (herr : d.reason.kind = .error ∨ ok = false) : Diag env.store f.key ok st st' := by
   unfold evalBody at h
   split at h
   · simp only [Prod.mk.injEq, FlagOut.done.injEq] at h
@@ -931,7 +954,7 @@ theorem evalBody_diag {rec : FlagRec} {sf : Nat} {env : Env} (hl : env.opts.logg
 /-- C19 core: whenever `evalFlag` returns an error detail (or aborts), and a logger is configured,
 the call wrote a diagnosing line (`Diag`). -/
 theorem evalFlag_diag (sf : Nat) {env : Env} (hl : env.opts.logger = true) :
-    ∀ n, FlagRecDiag (evalFlag sf n env) := by
+    ∀ n, FlagRecDiag env.store (evalFlag sf n env) := by
   intro n
   induction n with
   | zero => intro pf chain st d ok st' h; simp [evalFlag] at h
